@@ -12,6 +12,9 @@ UNITS = {
     'n_c14_s3': dict(cpp='harness/n_c16.cpp', cdefs=('YK_HAVE_ON_SLEEP', 'YK_HAVE_THREAD_JOIN', 'YK_VAL_CAP=16'), extra_c=('rt/join_epoch_gc.c',), extra_roots=('yk_on_sleep',), sessions=3),
     's_version': dict(cpp='harness/s_version.cpp', coroutines=('T_lock_a', 'T_lock_b', 'T_reader'), inline_all=True),
     's_version2': dict(cpp='harness/s_version.cpp', coroutines=('T_lock_a', 'T_flagger'), inline_all=True),
+    's_c14': dict(cpp='harness/s_session.cpp', coroutines=('T_enter0', 'T_enter1', 'T_enter2'), inline_all=True, sessions=2, cdefs=('YK_VAL_CAP=16',)),
+    's_c14b': dict(cpp='harness/s_session.cpp', coroutines=('T_ele0', 'T_enter1', 'T_enter2'), inline_all=True, sessions=2, cdefs=('YK_VAL_CAP=16',)),
+    's_c07': dict(cpp='harness/s_session.cpp', coroutines=('T_reader_session', 'T_remover_session', 'T_epoch', 'T_gc'), inline_all=True, sessions=2, cdefs=('YK_VAL_CAP=16', 'YK_MAX_SLEEPS=2', 'YK_NALLOC=3', 'YK_DRAIN_ROUNDS=1', 'YK_NEV=4')),
     'k_value': dict(cpp='harness/k_value.cpp', cdefs=('YK_VAL_CAP=48',)),
 }
 
@@ -39,12 +42,15 @@ _T1_BIG = [H('n_t1', 'H_t1_put_n14', 'put into T1(14) (last insert before the no
 
 REGISTRY = {
     'C14': [
+        H('s_c14', 'H_c14_concurrent_enter', '3 concurrent real enter() calls on 2 slots: distinct tokens, capacity, exactly min(3,2) succeed, open sessions counted', 'NT=3, capacity 2, CTX=6 contexts + fair continuation, hook granularity, SC', sync=3, timeout=1200),
+        H('s_c14b', 'H_c14_concurrent_enter_leave', 'enter;leave;enter racing two enters: exclusivity and capacity at every moment, slot reuse', 'NT=3, capacity 2, CTX=6', sync=3, timeout=1200),
         H('n_c16', 'H_c14_enter_leave_seq', 'real enter/leave on an ARBITRARY slot table: OK iff a slot is free, exclusive slot, counted until leave, reuse', 'capacity 2; all 2^2 occupancy states, arbitrary epochs'),
         H('n_c14_s1', 'H_c14_enter_leave_seq', 'same, capacity 1', 'capacity 1'),
         H('n_c14_s3', 'H_c14_enter_leave_seq', 'same, capacity 3', 'capacity 3; all 2^3 occupancy states'),
     ],
     'C16': [
         H('n_c16', 'H_c16_epoch_runs_every_cycle', 'init() from the state ANY number of earlier cycles can leave: slots free/reusable, real epoch_thread body keeps advancing the epoch', 'sessions=2; stop flags/epoch/slot residue arbitrary; 3 epoch periods', tags=(1,)),
+        H('n_c16', 'H_c16_slots_free_every_cycle', 'init() from any earlier state: every slot free, tokens distinct, capacity exact, reuse after leave', 'sessions=2'),
         H('n_c16', 'H_c16_gc_runs_every_cycle', 'init() from any earlier state: real gc_thread body reclaims an eligible retired block and keeps running', 'sessions=2; 2 gc periods', tags=(2,)),
         H('n_c16', 'H_c16_two_cycles', 'real init(); ops; fin(); init(); fin(): fin terminates (thread bodies return), releases everything even with a session left open, next cycle clean', 'sessions=2; 2 cycles'),
     ],
